@@ -581,7 +581,9 @@ fn exec_op(ctx: &mut Ctx<'_>, op: &Op) -> Res {
                 let keep = p.keep(k, vid);
                 CB_LOG.with(|l| l.borrow_mut().push(PredRec { k, kinst, vid, keep, clock: sched::now() }));
                 if let Pred::ReinsertReject(rk, rvid) = p {
-                    if *rk == k {
+                    // (at most 40 times per call: a removed-and-re-inserted key can land ahead of
+                    // the iterator again and again when two such retains chase each other)
+                    if *rk == k && NESTED.with(|n| n.borrow().len()) < 40 {
                         // the predicate replaces the entry it has just been shown
                         let inv = sched::op_start();
                         let key = Key::new(k);
@@ -709,7 +711,7 @@ fn exec_op(ctx: &mut Ctx<'_>, op: &Op) -> Res {
                 let keep = p.keep(k, 0);
                 CB_LOG.with(|l| l.borrow_mut().push(PredRec { k, kinst, vid: 0, keep, clock: sched::now() }));
                 if let Pred::ReinsertReject(rk, _) = p {
-                    if *rk == k {
+                    if *rk == k && NESTED.with(|n| n.borrow().len()) < 40 {
                         let inv = sched::op_start();
                         let key = Key::new(k);
                         let nk = key.inst;
